@@ -1,9 +1,7 @@
 pub trait Sup {}
-#[::entrait::entrait(delegate_by = ref)]
+#[::entrait::entrait(mock_api = Mk, unimock)]
 /// The trait's documentation.
 /// Second line with `code`.
-trait Tr {
-    /// Method documentation.
-    #[must_use]
+trait Tr<'t, const N: usize, G: Clone = u8> {
     fn m(&self, a: i32) -> i32;
 }
